@@ -122,6 +122,15 @@ def repo(draw, portable=False, full_skeleton=False, ignored_dirs=True,
                         files[f'metadata/md5-cache/{c}/'
                               f'{draw(st.sampled_from(PKGS))}-1'] = \
                             draw(content)
+                # a category that is still listed (and cached) but has no
+                # directory any more
+                gone = [c for c in CATS if c not in cats]
+                if gone and 'profiles/categories' in files \
+                        and draw(st.integers(0, 3)) == 0:
+                    g = draw(st.sampled_from(gone))
+                    files['profiles/categories'] += g + '\n'
+                    files[f'metadata/md5-cache/{g}/old-1'] = draw(content)
+                    n += 1
                 if n == 0:
                     dirs.append('metadata/md5-cache')
             elif s == 'glsa':
